@@ -123,6 +123,23 @@ Theorem C14_burst_example :
 Proof. exact burst_example_lemma. Qed.
 Print Assumptions C14_burst_example.
 
+(* message boundaries on the stats topic: the relay's write pump appends whatever else is queued to
+   the websocket message it is writing, without a delimiter.  statsReporter's rate limit (a round
+   starts with a sleep of one second) keeps reports at least a second apart, so a viewer whose
+   pump takes each report within a second of its being queued gets exactly one report (one JSON
+   array) per websocket message *)
+Theorem C14_one_report_per_message :
+  forall now waits lats, Forall (fun l => 0 <= l < rate_limit_ms)%Z lats ->
+    messages (emit_times now waits) lats = map (fun t => [t]) (emit_times now waits).
+Proof. exact one_report_per_message_lemma. Qed.
+Print Assumptions C14_one_report_per_message.
+
+(* ... and without that gap two reports share a message (what the client cannot decode) *)
+Theorem C14_merged_message_example :
+  messages [5000; 5000; 7000]%Z [0; 0; 0]%Z = [[5000; 5000]; [7000]]%Z.
+Proof. exact merged_message_example. Qed.
+Print Assumptions C14_merged_message_example.
+
 (* non-vacuity: a history with odd metadata (quotes, an invalid byte, U+2028, a 4-byte rune), one
    leave and one eviction; the listing encodes, is well-formed, and decodes to two reports whose
    topics and user agents are the sanitized ones *)
